@@ -46,7 +46,7 @@ func (p *Program) siteOf(inv Invocation) *Site {
 func setOrder(mp simrt.MapPolicy, seed uint64) { simrt.SetMapOrder(mp, seed) }
 
 func faultRun(t *rapid.T) {
-	mode := rapid.IntRange(0, 9).Draw(t, "mode")
+	mode := uni(t, "mode", 10)
 	switch {
 	case mode <= 6:
 		faultProbeRun(t)
@@ -59,7 +59,7 @@ func faultRun(t *rapid.T) {
 
 func faultProbeRun(t *rapid.T) {
 	p := genProgram(t, genOpts{probes: true, noise: true, probePct: 35, mapRegions: true})
-	mp := simrt.MapPolicy(rapid.IntRange(0, 3).Draw(t, "maporder"))
+	mp := simrt.MapPolicy(uni(t, "maporder", 4))
 	mseed := rapid.Uint64().Draw(t, "mapseed")
 	count("maporder_"+mp.String(), 1)
 
@@ -142,7 +142,7 @@ func faultProbeRun(t *rapid.T) {
 				if len(l) == 0 || len(ks) >= limit {
 					continue
 				}
-				i := rapid.IntRange(0, len(l)-1).Draw(t, "fp")
+				i := uni(t, "fp", len(l))
 				ks = append(ks, l[i])
 				byClass[c] = append(l[:i:i], l[i+1:]...)
 				progressed = true
@@ -266,7 +266,7 @@ func faultProbeRun(t *rapid.T) {
 				continue
 			}
 			// shift relation
-			j := shiftJs[rapid.IntRange(0, len(shiftJs)-1).Draw(t, "shift")]
+			j := shiftJs[uni(t, "shift", len(shiftJs))]
 			sp := *p
 			sp.Main = strings.Repeat("\n", j) + p.Main
 			srt := newRuntime(&sp, true)
@@ -315,7 +315,7 @@ var strictGen = envInt("VERIF_STRICT_GEN", 0) != 0
 // else it must fail the render.
 func tolerantRun(t *rapid.T) {
 	p := genProgram(t, genOpts{tolerant: true, noise: true})
-	mp := simrt.MapPolicy(rapid.IntRange(0, 3).Draw(t, "maporder"))
+	mp := simrt.MapPolicy(uni(t, "maporder", 4))
 	mseed := rapid.Uint64().Draw(t, "mapseed")
 	if len(p.Tolerant) == 0 {
 		return
@@ -422,7 +422,7 @@ func checkLine(t *rapid.T, p *Program, err error, want int, cls string, det func
 	if thorough {
 		js = append(js, 100)
 	}
-	j := js[rapid.IntRange(0, len(js)-1).Draw(t, "shift")]
+	j := js[uni(t, "shift", len(js))]
 	sout, serr := rerender(strings.Repeat("\n", j) + p.Main)
 	count("c15_shift_runs", 1)
 	wantErr := fmt.Sprintf("line %d: %s", want+j, err.Error()[len(m[0]):])
@@ -444,7 +444,7 @@ func naturalFailRun(t *rapid.T) {
 	if p.Failing == "" {
 		return
 	}
-	mp := simrt.MapPolicy(rapid.IntRange(0, 3).Draw(t, "maporder"))
+	mp := simrt.MapPolicy(uni(t, "maporder", 4))
 	mseed := rapid.Uint64().Draw(t, "mapseed")
 	rt := newRuntime(p, true)
 	setOrder(mp, mseed)
